@@ -53,3 +53,22 @@ C(SC + ".set_global", params={"self": SELF, "name": "str", "value": "any"},
       "self._root is None or same_map(self.own, old(self.own))",
   ],
   ghost=G, serves=["C05", "C09"])
+
+
+C(SC + ".copy", params={"self": SELF},
+  ensures=[
+      # a NEW scope with the same own bindings ...
+      "result is not self", "same_map(result.own, self.own)",
+      # ... that shares the rendering root: the root of the copied scope, or the copied scope itself
+      # when it is the root ("global definitions stay visible ... also after returning from a
+      # macro": a macro receives a copy, a nested macro a copy of the copy)
+      "self._root is None or result._root is self._root",
+      "self._root is not None or result._root is self",
+      # the copied scope is untouched
+      "same_map(self.own, old(self.own))",
+  ],
+  result="any",
+  ghost=dict(G, externals={'Scope': {'result': 'dict-copy-of-arg0'}},
+             harness=('bounded.scope_harness', 'scope_copy'),
+             search={'generator': ('bounded.scope_harness', 'gen_scopes')}),
+  serves=["C05", "C09"])
